@@ -178,6 +178,17 @@ func runCases(s Suite, cases []Case, r *Result) {
 		}
 		implRes[i] = res
 		dopsAll[i] = dops
+		if dump := os.Getenv("VERIF_DUMP"); dump != "" {
+			var sb strings.Builder
+			for j := range dops {
+				r0 := ""
+				if j < len(res) {
+					r0 = res[j]
+				}
+				sb.WriteString(dops[j] + "  =>  " + r0 + "\n")
+			}
+			os.WriteFile(fmt.Sprintf("%s.%d", dump, i), []byte(sb.String()), 0644)
+		}
 		for _, d := range dops {
 			k := d
 			if j := strings.IndexByte(d, ' '); j > 0 {
